@@ -181,8 +181,9 @@ PROPS = {
              [fam("traits", n=60, scripted=False)], [fam("traits", n=300, scripted=False)], ["traitBodies"],
              search=[fam("traits", n=300, scripted=False)], scripted=False),
     "C18": P("C18", ["LSProofs.Props.C18"], ["out", "text", "rc", "ev", "handles"],
-             [fam("callbacks", n=1), RANDOM_Q], [fam("callbacks", n=3), RANDOM_T], GUARDS,
-             search=[fam("callbacks", n=3), fam("random", n=30000)]),
+             [fam("callbacks", n=1), fam("iterglue", n=3, scripted=False), RANDOM_Q],
+             [fam("callbacks", n=3), fam("iterglue", n=40, scripted=False), RANDOM_T], GUARDS,
+             search=[fam("callbacks", n=3), fam("iterglue", n=40, scripted=False), fam("random", n=30000)]),
     "C19": P("C19", ["LSProofs.Props.C19"], None,
              [fam("serde", n=3, scripted=False)], [fam("serde", n=5, scripted=False)], ["serdeBodies", "arbitraryBodies"],
              search=[fam("serde", n=5, scripted=False)], scripted=False, ext=True),
